@@ -70,7 +70,7 @@ def run_schedule(sched):
     def ev(k, r=0, ty="", mid=0, q=0, dig=0, con=False, cls="", tok=None):
         if frozen:
             return None
-        e = {"k": k, "t": units(w.loop), "r": r, "ty": ty, "mid": mid, "q": q, "dig": dig, "con": con, "cls": cls, "g": 0, "cb": w.loop.cb_seq, "ccb": -1}
+        e = {"k": k, "t": units(w.loop), "r": r, "ty": ty, "mid": mid, "q": q, "dig": dig, "con": con, "cls": cls, "g": 0, "cb": w.loop.cb_seq, "ccb": -1, "tf": w.loop.ticks()}
         events.append(e)
         if tok is not None:
             raw.append((e, tok))
